@@ -497,11 +497,13 @@ class Size(Unit):
         if not isinstance(r, int):
             E.check('size.concrete', False, note='size is not a table constant')
             return None
-        E.check('size.value', And(n < (1 << (7 * r)), (n >= (1 << (7 * (r - 1)))) if r > 1 else True),
-                note='size(n) = least k with n < 128^k = |enc(n)|')
-        # closed obligation on the table itself
-        keys = list(basic.VARINT_SIZE_TABLE.items())
-        E.check('size.table-increasing', all(a[0] < b[0] and a[1] < b[1] for a, b in zip(keys, keys[1:])))
+        E.check('size.value', And(r >= 1, n < (1 << (7 * max(r, 0))), (n >= (1 << (7 * (r - 1)))) if r > 1 else True),
+                note='size(n) = least k >= 1 with n < 128^k = |enc(n)| (the encoding of 0 is one byte)')
+        # closed obligation on the table itself, where the function works from one
+        table = getattr(basic, 'VARINT_SIZE_TABLE', None)
+        if table is not None:
+            keys = list(table.items())
+            E.check('size.table-increasing', all(a[0] < b[0] and a[1] < b[1] for a, b in zip(keys, keys[1:])))
         return r
 
     def replay(self, model, label):
